@@ -59,6 +59,9 @@ def do_import(wt, prop, tag=""):
             if rc != 0:
                 # the base moved on (a later fix commit): try a 3-way merge and keep the regenerated patch
                 rc, out = sh(f"git apply --3way {patch}", cwd=SCRATCH)
+                if rc == 0 and "conflict" in out.lower():
+                    rc = 1
+                    sh("git checkout -q -- . && git reset -q", cwd=SCRATCH)
                 if rc == 0:
                     sh("git reset -q", cwd=SCRATCH)
                     rc2, newp = sh("git diff", cwd=SCRATCH)
